@@ -16,7 +16,8 @@ ID = "C15"
 RULE = ("zoo surfaces with 0-6 border loops and 1-2 components (chords between border vertices, ears, ragged borders, polygons) for the border clauses, "
         "every border vertex as starting point; hinge families (two triangulated strips folded by a prescribed dihedral angle swept on both sides of 60 "
         "degrees and of acos(0.8) at distances 1e-1 ... 1e-7 rad, crease declared hard or not) and lifted/closed triangle meshes for the detector, with "
-        "options only_border / flag_corners / corner_order; non-trivial = >= 2 border loops, or a hinge within 1e-3 rad of a threshold; distinct = input hash")
+        "options only_border / flag_corners / corner_order; non-trivial = >= 2 border loops, or a hinge within 1e-3 rad of a threshold; distinct = input hash"
+        "; variants: one-rung hinges, very pointed feature vertices (pennant, thin rhombus, slender spike; orders 3-8), far-from-origin copies, compute_feature_graph=False, detect-deform-detect history")
 REQUIRED = {"cycle": 400, "cycle_all": 80, "polyline": 60, "features": 120, "derived": 100}
 CASE_TIMEOUT = {"quick": 30.0, "thorough": 600.0}
 ASSUMPTIONS = ["neighbourhood sorting is on (the border walk legitimately relies on sorted rings; the switch belongs to C01's quantifier)",
